@@ -27,7 +27,7 @@ CLAIM = {
 THEOREMS = ["Okane.C02_holds", "Okane.C02_reject", "Okane.C02_diff", "Okane.C02_invariant", "Okane.C02_fileorder_partial",
             "Okane.C02_fileorder_false", "Okane.assertFails_false_iff", "Okane.step_balance"]
 
-FLAVORS = ["assert", "assert-false", "assign", "assign-zero", "omitted", "multi-omitted", "plain", "expr"]
+FLAVORS = ["assert", "assert-false", "assert-cost", "cancel-assert", "assign", "assign-zero", "omitted", "multi-omitted", "plain", "expr"]
 
 
 def replay_f12(chk):
